@@ -146,7 +146,7 @@ def check_schedule(g, p, d, env_params, sh, report, prev_sched=None, extra_args=
             report(f"value:{tag}", f"{d}: {tag}({x!r}) = {float(got)!r} but the schedule's value is {float(exp)!r} ({kind})", {**case, "x": x})
         if kind == "near-threshold":
             sh.nontrivial.add(f"{tag}|{d}|{i}|near-threshold")
-        for mult in (0.5, 0.731):
+        for mult in (0.5, 0.731, 0.0, 1.0, 2.0):  # the multiplier is a share (Nettoquote): 0 and 1 are ordinary values
             sh.evaluations += 1
             try:
                 gm = piecewise_polynomial(x, thresholds=cth, rates=rates, intercepts_at_lower_thresholds=inter.copy(), rates_multiplier=mult)
